@@ -27,7 +27,7 @@ LEVEL_NOTE = (
 )
 TECHNIQUE = "property-based testing with harness-owned schedules: notification-sequence grammar + exact per-scope totals vs. spec-level oracle"
 RULE = (
-    "Hypothesis draws a plan spec with nested scopes (optionally registry world with a short history), always-failing "
+    "(also: every shard process first runs and discards a plan of 4600 per-item closures; the Progress members are passed as tuple/list/generator/iterator/frozenset; falsy exception instances) Hypothesis draws a plan spec with nested scopes (optionally registry world with a short history), always-failing "
     "calls raising Exception subclasses, max_errors, workers, scheduler, schedule, 1..3 observers (optionally one more composite member failing in its own __enter__/__exit__) and optionally a transform_physical callback (copying / in-place, adding a call, wrapping the output). Oracle as in "
     "LEVEL_TEXT. Non-trivial = >= 2 distinct scopes and (a failure or a registry). Distinct = SHA-1 of the case."
 )
